@@ -80,9 +80,20 @@ func SetKnob(name string, v int) {
 	knobs[name] = v
 }
 
+var totalYields int64
+
+//go:norace
+func countYield() { totalYields++ }
+
+// TotalYields is the number of yields executed so far by all tasks.
+//
+//go:norace
+func TotalYields() int64 { return totalYields }
+
 // Yield is inserted at every function entry and loop head of generated code.
 func Yield(site int) {
 	t := Cur()
+	countYield()
 	t.Steps++
 	t.InSite = site
 	if t.Budget > 0 && t.Steps > t.Budget {
@@ -97,11 +108,12 @@ func Yield(site int) {
 
 // Schedule is the plan of one scheduled run.
 type Schedule struct {
-	Policy  string   `json:"policy"`            // uniform | preempt | explicit
-	Seed    uint64   `json:"seed,omitempty"`    // uniform
-	Points  [][2]int `json:"points,omitempty"`  // preempt: at global step a, switch to task b
-	Choices []int    `json:"choices,omitempty"` // explicit: task id per step (then lowest live id)
-	Starve  int      `json:"starve,omitempty"`  // task id+1 that is never chosen while another is live (0: none)
+	Policy   string   `json:"policy"`             // uniform | preempt | explicit
+	Seed     uint64   `json:"seed,omitempty"`     // uniform
+	Points   [][2]int `json:"points,omitempty"`   // preempt: at global step a, switch to task b
+	Choices  []int    `json:"choices,omitempty"`  // explicit: task id per step (then lowest live id)
+	Starve   int      `json:"starve,omitempty"`   // task id+1 that is never chosen while another is live (0: none)
+	Permille [][2]int `json:"permille,omitempty"` // preempt: like Points, the step given in 1/1000 of the solo runs' total yields (resolved by the harness)
 }
 
 type Sched struct {
